@@ -23,5 +23,10 @@ theorem body_standardRenderer_kill : Tea.Gen.fact_body_standardRenderer_kill = T
 theorem body_standardRenderer_clearScreen : Tea.Gen.fact_body_standardRenderer_clearScreen = Tea.Doc.fact_body_standardRenderer_clearScreen := rfl
 theorem body_standardRenderer_enterAltScreen : Tea.Gen.fact_body_standardRenderer_enterAltScreen = Tea.Doc.fact_body_standardRenderer_enterAltScreen := rfl
 theorem body_standardRenderer_exitAltScreen : Tea.Gen.fact_body_standardRenderer_exitAltScreen = Tea.Doc.fact_body_standardRenderer_exitAltScreen := rfl
+theorem body_standardRenderer_execute : Tea.Gen.fact_body_standardRenderer_execute = Tea.Doc.fact_body_standardRenderer_execute := rfl
+theorem body_standardRenderer_lastLinesRendered : Tea.Gen.fact_body_standardRenderer_lastLinesRendered = Tea.Doc.fact_body_standardRenderer_lastLinesRendered := rfl
+theorem body_standardRenderer_setWindowTitle : Tea.Gen.fact_body_standardRenderer_setWindowTitle = Tea.Doc.fact_body_standardRenderer_setWindowTitle := rfl
+theorem body_Quit : Tea.Gen.fact_body_Quit = Tea.Doc.fact_body_Quit := rfl
+theorem body_WithANSICompressor : Tea.Gen.fact_body_WithANSICompressor = Tea.Doc.fact_body_WithANSICompressor := rfl
 
 end Tea.Props.Bridge.C07
